@@ -1646,7 +1646,8 @@ pub fn run_recv(opts: &Opts, out: &mut dyn Write) {
         let ncases = if opts.thorough { 6000 } else { 500 };
         for _ in 0..ncases {
             cases += 1;
-            let seg = *rng.pick(&[16u16, 24, 32, 64]);
+            // sizes that are / are not a multiple of a NAK segment request (8 or 16 octets)
+            let seg = *rng.pick(&[16u16, 24, 32, 64, 20, 28, 44]);
             let cfg = RecvCfg {
                 mode: if rng.chance(2, 3) { TransmissionMode::Acknowledged } else { TransmissionMode::Unacknowledged },
                 fss: if rng.chance(1, 6) { FileSizeFlag::Large } else { FileSizeFlag::Small },
